@@ -48,12 +48,98 @@ theorem finish_fields (p : PoolD) (amount limit : Nat) (isInput aToB : Bool) (no
     · cases h
       exact ⟨rfl, rfl, rfl, rfl, rfl, rfl, rfl⟩
 
-/-- **a swap keeps both vaults solvent** -/
-theorem solv_swap {ts0 : Nat} (s s' : HistState) (amount limit : Nat) (isInput aToB : Bool) (arrays : List Int) (outs : List Nat)
+/-- the value-only slack of a vault: balance minus the exact value of all liquidity -/
+def slack (tokA : Bool) (s : HistState) : ℚ := (vaultOf tokA s : ℚ) - sumQ (val tokA s.pool.price) s.positions
+
+/-- what a successful swap COMPUTATION guarantees about its result `u`, before any token moves:
+    the input it asks for covers everything it adds to the claims on the input vault, what it
+    pays out is covered by the shrinkage of the claims on the output vault — and the same for the
+    liquidity values alone -/
+theorem swap_core {ts0 : Nat} (s : HistState) (amount limit : Nat) (isInput aToB : Bool) (arrays : List Int) (u : PostSwap)
     (inv : Inv s) (g : Geo ts0 s) (w : Wf s) (hpr : s.pool.protoRate ≤ PROTOCOL_FEE_RATE_MUL_VALUE)
     (hseq : SeqOK arrays s.pool.ts aToB) (hamt : amount ≤ U64_MAX)
-    (h : histStep s (.swap amount limit isInput aToB arrays) = .ok (s', outs))
-    (sa : Solv true s) (sb : Solv false s) : Solv true s' ∧ Solv false s' := by
+    (hsw : swap s.pool s.ticks arrays amount limit isInput aToB s.now s.af SWAP_FUEL = .ok u) :
+    ((pfOf aToB s : ℚ) + (u.protoFee : ℚ) + sumQ (owedQ aToB) s.positions + sumQ (pendQ aToB u.ticks u.tick u.fgIn) s.positions +
+        sumQ (val aToB u.price) s.positions - claims aToB s ≤ ((if aToB then u.amountA else u.amountB : Nat) : ℚ)) ∧
+    ((pfOf (!aToB) s : ℚ) + sumQ (owedQ (!aToB)) s.positions + sumQ (pendQ (!aToB) u.ticks u.tick (glob (!aToB) s)) s.positions +
+        sumQ (val (!aToB) u.price) s.positions + ((if aToB then u.amountB else u.amountA : Nat) : ℚ) ≤ claims (!aToB) s) ∧
+    (sumQ (val aToB u.price) s.positions ≤ sumQ (val aToB s.pool.price) s.positions + ((if aToB then u.amountA else u.amountB : Nat) : ℚ)) ∧
+    (sumQ (val (!aToB) u.price) s.positions + ((if aToB then u.amountB else u.amountA : Nat) : ℚ) ≤ sumQ (val (!aToB) s.pool.price) s.positions) := by
+  obtain ⟨rewards, fm, st, ok, P0, hloop, hfin, _⟩ := swap_setup s.pool s.ticks s.positions arrays amount limit isInput aToB s.now SWAP_FUEL s.af u
+    g.ts hseq inv.liq (tickFacts_of s inv g) g.tp g.liqU g.fee hamt g.af hsw
+  obtain ⟨fa, fb, ftick, fprice, ffg, fpf, fticks⟩ := finish_fields _ _ _ _ _ _ _ _ _ hfin
+  have hGo : globOther (swapCtxOf s.pool arrays limit isInput aToB rewards) < TWO128 := by
+    unfold globOther swapCtxOf
+    simp only []
+    split
+    · exact w.fgB
+    · exact w.fgA
+  have hgIn : (swapInit s.pool s.ticks amount aToB fm).fgIn = glob aToB s := by
+    unfold swapInit glob; rfl
+  have hgOut : globOther (swapCtxOf s.pool arrays limit isInput aToB rewards) = glob (!aToB) s := by
+    unfold globOther swapCtxOf glob
+    cases aToB <;> simp
+  have q0 : SolvLoop (swapCtxOf s.pool arrays limit isInput aToB rewards) s.positions amount
+      (-(sumQ (pendQ aToB s.ticks s.pool.tick (glob aToB s)) s.positions + sumQ (val aToB s.pool.price) s.positions))
+      (-(sumQ (pendQ (!aToB) s.ticks s.pool.tick (glob (!aToB) s)) s.positions + sumQ (val (!aToB) s.pool.price) s.positions))
+      (sumQ (val aToB s.pool.price) s.positions) (sumQ (val (!aToB) s.pool.price) s.positions)
+      (swapInit s.pool s.ticks amount aToB fm) :=
+    have e1 : inSoFar (swapCtxOf s.pool arrays limit isInput aToB rewards) amount (swapInit s.pool s.ticks amount aToB fm) = 0 := by
+      unfold inSoFar swapInit; simp only []; split <;> simp
+    have e2 : outSoFar (swapCtxOf s.pool arrays limit isInput aToB rewards) amount (swapInit s.pool s.ticks amount aToB fm) = 0 := by
+      unfold outSoFar swapInit; simp only []; split <;> simp
+    { wf := w.ticks,
+      fg := by rw [hgIn]; unfold glob; split; exact w.fgA; exact w.fgB,
+      rem := Nat.le_refl _,
+      inn := by
+        rw [e1, hgIn]
+        show _ + ((0 : Nat) : ℚ) + sumQ (pendQ aToB s.ticks s.pool.tick (glob aToB s)) s.positions + sumQ (val aToB s.pool.price) s.positions ≤ 0
+        push_cast
+        linarith,
+      out := by
+        rw [e2, hgOut]
+        show _ + sumQ (pendQ (!aToB) s.ticks s.pool.tick (glob (!aToB) s)) s.positions + sumQ (val (!aToB) s.pool.price) s.positions + 0 ≤ 0
+        linarith,
+      vin := by
+        rw [e1]
+        show sumQ (val aToB s.pool.price) s.positions ≤ _
+        linarith,
+      vout := by
+        rw [e2]
+        show sumQ (val (!aToB) s.pool.price) s.positions + 0 ≤ _
+        linarith }
+  obtain ⟨_, q1⟩ := solv_loop _ s.positions s.pool.price amount _ _ _ _ ok hpr hGo SWAP_FUEL _ st P0 q0 hloop
+  have hrem := q1.rem
+  have hinTot : ((if aToB then u.amountA else u.amountB : Nat) : ℚ) =
+      inSoFar (swapCtxOf s.pool arrays limit isInput aToB rewards) amount st := by
+    unfold inSoFar swapCtxOf
+    simp only []
+    cases aToB <;> cases isInput <;> simp [fa, fb, Nat.cast_sub hrem]
+  have houtTot : ((if aToB then u.amountB else u.amountA : Nat) : ℚ) =
+      outSoFar (swapCtxOf s.pool arrays limit isInput aToB rewards) amount st := by
+    unfold outSoFar swapCtxOf
+    simp only []
+    cases aToB <;> cases isInput <;> simp [fa, fb, Nat.cast_sub hrem]
+  have qi := q1.inn
+  have qo := q1.out
+  have qvi := q1.vin
+  have qvo := q1.vout
+  rw [← hinTot] at qi qvi
+  rw [← houtTot] at qo qvo
+  rw [hgOut] at qo
+  have hcA : (swapCtxOf s.pool arrays limit isInput aToB rewards).aToB = aToB := rfl
+  rw [hcA] at qi qo qvi qvo
+  rw [ftick, fprice, ffg, fpf, fticks]
+  unfold claims
+  refine ⟨by linarith, by linarith, qvi, qvo⟩
+
+/-- the fields of the state after a successful swap operation -/
+theorem swap_state (s s' : HistState) (amount limit : Nat) (isInput aToB : Bool) (arrays : List Int) (outs : List Nat)
+    (h : histStep s (.swap amount limit isInput aToB arrays) = .ok (s', outs)) :
+    ∃ u, swap s.pool s.ticks arrays amount limit isInput aToB s.now s.af SWAP_FUEL = .ok u ∧
+      s'.pool = updateAfterSwap s.pool u aToB s.now ∧ s'.ticks = u.ticks ∧ s'.positions = s.positions ∧
+      (if aToB then u.amountB ≤ s.vaultB ∧ s'.vaultA = s.vaultA + u.amountA ∧ s'.vaultB = s.vaultB - u.amountB
+       else u.amountA ≤ s.vaultA ∧ s'.vaultA = s.vaultA - u.amountA ∧ s'.vaultB = s.vaultB + u.amountB) := by
   unfold histStep at h
   simp only [] at h
   split at h
@@ -61,66 +147,6 @@ theorem solv_swap {ts0 : Nat} (s s' : HistState) (amount limit : Nat) (isInput a
   · split at h
     · cases h
     · rename_i u hsw
-      obtain ⟨rewards, fm, st, ok, P0, hloop, hfin, _⟩ := swap_setup s.pool s.ticks s.positions arrays amount limit isInput aToB s.now SWAP_FUEL s.af u
-        g.ts hseq inv.liq (tickFacts_of s inv g) g.tp g.liqU g.fee hamt g.af hsw
-      obtain ⟨fa, fb, ftick, fprice, ffg, fpf, fticks⟩ := finish_fields _ _ _ _ _ _ _ _ _ hfin
-      obtain ⟨u1, u2, u3, u4, u5⟩ := uas_fields s.pool u aToB s.now
-      obtain ⟨v1, v2, v3, v4, v5⟩ := uas_fees s.pool u aToB s.now
-      -- the loop invariant at the start
-      have sIn : Solv aToB s := by cases aToB <;> assumption
-      have sOut : Solv (!aToB) s := by cases aToB <;> assumption
-      have hGo : globOther (swapCtxOf s.pool arrays limit isInput aToB rewards) < TWO128 := by
-        unfold globOther swapCtxOf
-        simp only []
-        split
-        · exact w.fgB
-        · exact w.fgA
-      have hgIn : (swapInit s.pool s.ticks amount aToB fm).fgIn = glob aToB s := by
-        unfold swapInit glob; rfl
-      have hgOut : globOther (swapCtxOf s.pool arrays limit isInput aToB rewards) = glob (!aToB) s := by
-        unfold globOther swapCtxOf glob
-        cases aToB <;> simp
-      have q0 : SolvLoop (swapCtxOf s.pool arrays limit isInput aToB rewards) s.positions amount
-          ((pfOf aToB s : ℚ) + sumQ (owedQ aToB) s.positions - (vaultOf aToB s : ℚ))
-          ((pfOf (!aToB) s : ℚ) + sumQ (owedQ (!aToB)) s.positions - (vaultOf (!aToB) s : ℚ))
-          (swapInit s.pool s.ticks amount aToB fm) :=
-        { wf := w.ticks,
-          fg := by rw [hgIn]; unfold glob; split; exact w.fgA; exact w.fgB,
-          rem := Nat.le_refl _,
-          inn := by
-            have e : inSoFar (swapCtxOf s.pool arrays limit isInput aToB rewards) amount (swapInit s.pool s.ticks amount aToB fm) = 0 := by
-              unfold inSoFar swapInit; simp only []; split <;> simp
-            rw [e, hgIn]
-            unfold Solv claims at sIn
-            show _ + ((0 : Nat) : ℚ) + sumQ (pendQ aToB s.ticks s.pool.tick (glob aToB s)) s.positions + sumQ (val aToB s.pool.price) s.positions ≤ 0
-            push_cast
-            linarith,
-          out := by
-            have e : outSoFar (swapCtxOf s.pool arrays limit isInput aToB rewards) amount (swapInit s.pool s.ticks amount aToB fm) = 0 := by
-              unfold outSoFar swapInit; simp only []; split <;> simp
-            rw [e, hgOut]
-            unfold Solv claims at sOut
-            show _ + sumQ (pendQ (!aToB) s.ticks s.pool.tick (glob (!aToB) s)) s.positions + sumQ (val (!aToB) s.pool.price) s.positions + 0 ≤ 0
-            linarith }
-      obtain ⟨_, q1⟩ := solv_loop _ s.positions s.pool.price amount _ _ ok hpr hGo SWAP_FUEL _ st P0 q0 hloop
-      have hrem := q1.rem
-      -- totals in terms of the loop state
-      have hinTot : ((if aToB then u.amountA else u.amountB : Nat) : ℚ) =
-          inSoFar (swapCtxOf s.pool arrays limit isInput aToB rewards) amount st := by
-        unfold inSoFar swapCtxOf
-        simp only []
-        cases aToB <;> cases isInput <;> simp [fa, fb, Nat.cast_sub hrem]
-      have houtTot : ((if aToB then u.amountB else u.amountA : Nat) : ℚ) =
-          outSoFar (swapCtxOf s.pool arrays limit isInput aToB rewards) amount st := by
-        unfold outSoFar swapCtxOf
-        simp only []
-        cases aToB <;> cases isInput <;> simp [fa, fb, Nat.cast_sub hrem]
-      have qi := q1.inn
-      have qo := q1.out
-      rw [← hinTot] at qi
-      rw [← houtTot, hgOut] at qo
-      have hcA : (swapCtxOf s.pool arrays limit isInput aToB rewards).aToB = aToB := rfl
-      rw [hcA] at qi qo
       split at h
       · cases h
       · rename_i hv1
@@ -130,48 +156,94 @@ theorem solv_swap {ts0 : Nat} (s s' : HistState) (amount limit : Nat) (isInput a
           simp only [Except.ok.injEq, Prod.mk.injEq] at h
           obtain ⟨h1, _⟩ := h
           subst h1
-          have hmod : ∀ a b : Nat, (((a + b) % TWO64 : Nat) : ℚ) ≤ (a : ℚ) + (b : ℚ) := by
-            intro a b
-            have := Nat.mod_le (a + b) TWO64
-            exact_mod_cast this
+          refine ⟨u, hsw, rfl, rfl, rfl, ?_⟩
           cases aToB
-          · -- B in, A out
-            simp only [Bool.false_eq_true, if_false, Bool.not_false, if_true] at qi qo v1 v2 v3 v4 hv2
-            simp only [Bool.false_eq_true, Bool.false_and, Bool.not_false, Bool.true_and, decide_eq_true_eq, not_lt] at hv1 hv2
-            constructor
-            · unfold Solv claims pfOf vaultOf glob
-              simp only [if_true, v1, v3, u2, u3, ftick, fprice, fticks]
-              unfold pfOf vaultOf glob at qo
-              simp only [if_true] at qo
-              show _ ≤ ((s.vaultA - u.amountA : Nat) : ℚ)
-              rw [Nat.cast_sub hv2]
-              linarith
-            · unfold Solv claims pfOf vaultOf glob
-              simp only [Bool.false_eq_true, if_false, v2, v4, u2, u3, ftick, fprice, fticks, ffg, fpf]
-              unfold pfOf vaultOf at qi
-              simp only [Bool.false_eq_true, if_false] at qi
-              show _ ≤ ((s.vaultB + u.amountB : Nat) : ℚ)
-              have := hmod s.pool.pfB st.protoFee
-              push_cast
-              linarith
-          · -- A in, B out
-            simp only [if_true, Bool.not_true, Bool.false_eq_true, if_false] at qi qo v1 v2 v3 v4 hv1
-            simp only [Bool.true_and, decide_eq_true_eq, not_lt] at hv1
-            constructor
-            · unfold Solv claims pfOf vaultOf glob
-              simp only [if_true, v1, v3, u2, u3, ftick, fprice, fticks, ffg, fpf]
-              unfold pfOf vaultOf at qi
-              simp only [if_true] at qi
-              show _ ≤ ((s.vaultA + u.amountA : Nat) : ℚ)
-              have := hmod s.pool.pfA st.protoFee
-              push_cast
-              linarith
-            · unfold Solv claims pfOf vaultOf glob
-              simp only [Bool.false_eq_true, if_false, v2, v4, u2, u3, ftick, fprice, fticks]
-              unfold pfOf vaultOf glob at qo
-              simp only [Bool.false_eq_true, if_false] at qo
-              show _ ≤ ((s.vaultB - u.amountB : Nat) : ℚ)
-              rw [Nat.cast_sub hv1]
-              linarith
+          · simp only [Bool.false_eq_true, Bool.false_and, Bool.not_false, Bool.true_and, decide_eq_true_eq, not_lt] at hv2
+            simp only [Bool.false_eq_true, if_false, and_true]
+            exact hv2
+          · simp only [Bool.true_and, decide_eq_true_eq, not_lt] at hv1
+            simp only [if_true, and_true]
+            exact hv1
+
+/-- **a swap keeps both vaults solvent** -/
+theorem solv_swap {ts0 : Nat} (s s' : HistState) (amount limit : Nat) (isInput aToB : Bool) (arrays : List Int) (outs : List Nat)
+    (inv : Inv s) (g : Geo ts0 s) (w : Wf s) (hpr : s.pool.protoRate ≤ PROTOCOL_FEE_RATE_MUL_VALUE)
+    (hseq : SeqOK arrays s.pool.ts aToB) (hamt : amount ≤ U64_MAX)
+    (h : histStep s (.swap amount limit isInput aToB arrays) = .ok (s', outs))
+    (sa : Solv true s) (sb : Solv false s) : Solv true s' ∧ Solv false s' := by
+  obtain ⟨u, hsw, hpool, hticks, hposs, hv⟩ := swap_state s s' amount limit isInput aToB arrays outs h
+  obtain ⟨ci, co, _, _⟩ := swap_core s amount limit isInput aToB arrays u inv g w hpr hseq hamt hsw
+  obtain ⟨u1, u2, u3, u4, u5⟩ := uas_fields s.pool u aToB s.now
+  obtain ⟨v1, v2, v3, v4, v5⟩ := uas_fees s.pool u aToB s.now
+  have hmod : ∀ a b : Nat, (((a + b) % TWO64 : Nat) : ℚ) ≤ (a : ℚ) + (b : ℚ) := by
+    intro a b
+    have := Nat.mod_le (a + b) TWO64
+    exact_mod_cast this
+  unfold Solv at sa sb ⊢
+  cases aToB
+  · -- B in, A out
+    simp only [Bool.false_eq_true, if_false, Bool.not_false, if_true] at ci co v1 v2 v3 v4 hv
+    obtain ⟨hle, ea, eb⟩ := hv
+    constructor
+    · unfold claims pfOf vaultOf glob
+      unfold pfOf glob at co
+      simp only [if_true] at co ⊢
+      rw [hpool, hticks, hposs, v1, v3, u2, u3, ea, Nat.cast_sub hle]
+      unfold vaultOf at sa; simp only [if_true] at sa
+      linarith
+    · unfold claims pfOf vaultOf glob
+      unfold pfOf at ci
+      simp only [Bool.false_eq_true, if_false] at ci ⊢
+      rw [hpool, hticks, hposs, v2, v4, u2, u3, eb]
+      unfold vaultOf at sb; simp only [Bool.false_eq_true, if_false] at sb
+      have := hmod s.pool.pfB u.protoFee
+      push_cast
+      linarith
+  · -- A in, B out
+    simp only [if_true, Bool.not_true, Bool.false_eq_true, if_false] at ci co v1 v2 v3 v4 hv
+    obtain ⟨hle, ea, eb⟩ := hv
+    constructor
+    · unfold claims pfOf vaultOf glob
+      unfold pfOf at ci
+      simp only [if_true] at ci ⊢
+      rw [hpool, hticks, hposs, v1, v3, u2, u3, ea]
+      unfold vaultOf at sa; simp only [if_true] at sa
+      have := hmod s.pool.pfA u.protoFee
+      push_cast
+      linarith
+    · unfold claims pfOf vaultOf glob
+      unfold pfOf glob at co
+      simp only [Bool.false_eq_true, if_false] at co ⊢
+      rw [hpool, hticks, hposs, v2, v4, u2, u3, eb, Nat.cast_sub hle]
+      unfold vaultOf at sb; simp only [Bool.false_eq_true, if_false] at sb
+      linarith
+
+/-- **a swap never lowers the value-only slack of either vault**: what comes in is at least the growth
+    of the liquidity value in that token, what goes out at most its shrinkage -/
+theorem swap_slack_mono {ts0 : Nat} (s s' : HistState) (amount limit : Nat) (isInput aToB : Bool) (arrays : List Int) (outs : List Nat)
+    (inv : Inv s) (g : Geo ts0 s) (w : Wf s) (hpr : s.pool.protoRate ≤ PROTOCOL_FEE_RATE_MUL_VALUE)
+    (hseq : SeqOK arrays s.pool.ts aToB) (hamt : amount ≤ U64_MAX)
+    (h : histStep s (.swap amount limit isInput aToB arrays) = .ok (s', outs)) :
+    slack true s ≤ slack true s' ∧ slack false s ≤ slack false s' ∧ s'.positions = s.positions := by
+  obtain ⟨u, hsw, hpool, hticks, hposs, hv⟩ := swap_state s s' amount limit isInput aToB arrays outs h
+  obtain ⟨_, _, vi, vo⟩ := swap_core s amount limit isInput aToB arrays u inv g w hpr hseq hamt hsw
+  obtain ⟨u1, u2, u3, u4, u5⟩ := uas_fields s.pool u aToB s.now
+  refine ⟨?_, ?_, hposs⟩
+  · unfold slack vaultOf
+    simp only [if_true]
+    rw [hpool, hposs, u3]
+    cases aToB
+    · simp only [Bool.false_eq_true, if_false, Bool.not_false, if_true] at vi vo hv
+      rw [hv.2.1, Nat.cast_sub hv.1]; linarith
+    · simp only [if_true, Bool.not_true, Bool.false_eq_true, if_false] at vi vo hv
+      rw [hv.2.1]; push_cast; linarith
+  · unfold slack vaultOf
+    simp only [Bool.false_eq_true, if_false]
+    rw [hpool, hposs, u3]
+    cases aToB
+    · simp only [Bool.false_eq_true, if_false, Bool.not_false, if_true] at vi vo hv
+      rw [hv.2.2]; push_cast; linarith
+    · simp only [if_true, Bool.not_true, Bool.false_eq_true, if_false] at vi vo hv
+      rw [hv.2.2, Nat.cast_sub hv.1]; linarith
 
 end WP.Solv
